@@ -607,8 +607,18 @@ def gen_records(rng, v, focus=None, position=None, hostile_p=0.35, allow_bytes=T
                 mode = rng.random()
                 if mode < 0.4:
                     cur_keys = mk_keys(rng.choice([1, 2, 3, nfld, min(nfld + 1, v.max_fields)]))
-                elif mode < 0.7 and len(keys) > 1:
+                elif mode < 0.6 and len(keys) > 1:
                     cur_keys = keys[:rng.randint(1, len(keys))]
+                elif mode < 0.85 and len(cur_keys) > 1:
+                    # same key SET, different ORDER (a schema change for every header-carrying format: a writer that
+                    # compares only the count or the membership of the keys prints the values under the wrong names)
+                    perm = list(cur_keys)
+                    if rng.random() < 0.5:
+                        perm = perm[1:] + perm[:1]
+                    else:
+                        while perm == list(cur_keys):
+                            rng.shuffle(perm)
+                    cur_keys = perm
                 else:
                     cur_keys = keys
         recs.append([(k, _rand_cell(rng, dom, "val", alv, hostile_p)) for k in cur_keys])
